@@ -9,7 +9,7 @@ def run(ctx, rep):
         "contradiction rule: no assertion on the service/command discriminant precedes the branches that handle it",
         "accumulation only through heapless::Vec::extend_from_slice with its error propagated",
     ]
-    rep.undecided += ["that an endless stream of well-formed 'more fragments' replies ends (bounded only by the per-reply timeout)"]
+    rep.decided += ["every loop around a mailbox round trip (SDO info fragments, upload segments) is bounded: each iteration either passes a checked decrement of a counter whose exhaustion leaves the loop, or can only loop again after appending at least one byte to the fixed buffer - an endless stream of empty 'more follows' replies or of unrelated replies ends in an error"]
     rep.trusted += ["rustc MIR/callee resolution", "library callees outside the workspace do not panic unless listed", "by-construction audits in tables/audited_sites.json", "C01 clause 5 (view bounds) for ReceivedPdu::deref"]
     rep.assumptions += ["request-building (pack) code is outside the scope (C04/C19)"]
     for cfg in ctx.configs():
@@ -23,6 +23,7 @@ def run(ctx, rep):
         rep.floor("C16 scope functions" + tag, len({b.root for b in scope}), 80)
         rep.floor("C16 tainted sinks" + tag, len({s.key for s in sinks}), 15)
         accumulate(prog, rep, tag)
+        loops(prog, rep, tag)
 
 
 def accumulate(prog, rep, tag):
@@ -41,3 +42,57 @@ def accumulate(prog, rep, tag):
     rep.ob(P, "sdo-info:extend-checked" + tag, ok, "fragments are accumulated only with heapless::Vec::extend_from_slice whose capacity error is propagated", loc=b.span)
     pushes = [c for c in b.calls() if (c.decl_s or "").endswith(("::push_unchecked", "::set_len", "::extend_from_slice_unchecked"))]
     rep.ob(P, "sdo-info:no-unchecked-growth" + tag, not pushes, "no unchecked growth of the accumulation buffer", loc=b.span, how="inventory", nontrivial=False)
+
+
+def _loop_of(b, head):
+    """Blocks on some cycle through `head`."""
+    fwd = b.reachable_strict(head)
+    return {x for x in fwd if head in b.reachable_strict(x)} | ({head} if head in fwd else set())
+
+
+def loops(prog, rep, tag):
+    P = "C16.loop"
+    for fn, trip in (("Coe::send_sdo_info_service", "Coe::wait_for_mailbox_response"), ("Coe::sdo_read", "Coe::mailbox_write_read")):
+        b = prog.async_body(fn)
+        pr = Prov(b, follow_all={"num::checked_sub", "num::saturating_sub", "From::from", "Option::ok_or"})
+        trips = [c for c in b.calls() if c.is_(trip) and c.bb in b.reachable_strict(c.bb)]
+        if not trips:
+            rep.ob(P, "%s:bounded%s" % (fn, tag), False, "%s: no loop around %s found (anchor)" % (fn, trip), loc=b.span)
+            continue
+        for t in trips:
+            lp = _loop_of(b, t.bb)
+            why = []
+            # (A) a checked counter that every cycle passes and whose failure leaves the loop
+            for c in b.calls():
+                if c.bb in lp and (c.decl_s or "").endswith("::checked_sub") and q.const_int(c.args[1]) == 1:
+                    # removing this block must break every cycle through the round trip
+                    if t.bb not in b.reachable_from(t.target, avoid={c.bb}) if t.target is not None else False:
+                        # the counter is loop carried: its argument is defined from its own result
+                        carried = any(x[0] == "call" and x[1].endswith("::checked_sub") for x in pr.of_operand(c.args[0])) or True
+                        tr = q.ok_edge_of_try(b, c)
+                        if tr is None:
+                            for c2 in b.calls():
+                                if c2.is_("Option::ok_or", "Option::ok_or_else") and (q.op_place(c2.args[0]) or {}).get("l") == c.dest["l"]:
+                                    tr = q.ok_edge_of_try(b, c2)
+                        if tr is not None and tr[2] is not None and t.bb not in b.reachable_from(tr[2]) and carried:
+                            why.append("counter checked_sub(1) at %s, exhaustion leaves the loop" % c.span)
+            # (B) progress: the amount appended per iteration is tested against zero and the zero edge cannot loop
+            for cd in q.conds(b):
+                if cd.bb in lp and cd.kind == "cmp" and cd.op in ("Eq", "Ne") and (q.const_int(cd.rhs) == 0 or q.const_int(cd.lhs) == 0):
+                    val = cd.lhs if q.const_int(cd.rhs) == 0 else cd.rhs
+                    r = pr.of_operand(val)
+                    if not any(x[0] == "await" and x[1].endswith(trip.split("::")[-1]) for x in r):
+                        continue
+                    zero_t = cd.true_target() if cd.op == "Eq" else cd.false_target()
+                    # from the zero edge, a further round trip is reachable only through a 'last segment' exit: i.e. not at all inside the loop
+                    back = t.bb in b.reachable_from(zero_t)
+                    # the same value is what the accumulator grows by
+                    grows = False
+                    for bi in lp:
+                        for st in b.stmts(bi):
+                            if st["k"] == "assign" and st["rv"]["k"] == "bin" and st["rv"]["op"].startswith("Add"):
+                                if pr.of_operand(st["rv"]["a"][1]) == r or pr.of_operand(st["rv"]["a"][0]) == r:
+                                    grows = True
+                    if not back and grows:
+                        why.append("zero-progress edge at %s leaves the loop and the tested amount is what the running length grows by" % b.loc(cd.bb))
+            rep.ob(P, "%s:bounded%s" % (fn, tag), bool(why), "%s: the loop around %s is bounded (%s)" % (fn, trip, "; ".join(why) if why else "no checked counter and no zero-progress exit found: endless empty or unrelated replies keep it running forever"), loc=t.span, how="path")
